@@ -87,7 +87,8 @@ fn print_report(r: &exec::Report) {
                "failure_after_failure": p.failure_after_failure, "eq_true_pairs_between_different_ops": p.eq_true_pairs_between_different_ops,
                "eq_false_pairs_same_first_element": p.eq_false_pairs_same_first_element, "pairs_compared": p.pairs_compared,
                "inner_pairs_compared": p.inner_pairs_compared, "ops_on_other_threads": p.ops_on_other_threads,
-               "successes": p.successes, "failures": p.failures, "skipped_ops": p.skipped_ops})
+               "successes": p.successes, "failures": p.failures, "skipped_ops": p.skipped_ops,
+               "reparse_checked": p.reparse_checked, "clone_checked": p.clone_checked, "max_live_results": p.max_live_results})
     )
     .unwrap();
 }
